@@ -4,6 +4,7 @@ CONSTANTS
   NRefs = 3
   InitName = "three"
   FieldOpsName = "two"
+  ShapeSet = {"plain"}
   MaxOps = 3
   Export = TRUE
 INVARIANT AliasesAgree
